@@ -915,16 +915,20 @@ func e2eInvalid(x *e2e, root *s3c.Client, b string, keys []string) {
 
 // ---------------------------------------------------------------- entry
 
+var finishRule string
+
 func Run(c *ev.Ctx) int {
 	c.Assume("the reference treats characters as Unicode code points; generated strings are valid UTF-8")
 	c.Assume("action vocabulary = the 37 S3 actions the gateway names (18 object-level, 19 bucket-level); s3:GetBucketObjectLockConfiguration is arguable and not judged")
 	c.Assume("not judged (counted as observations): spanning wildcard action with one resource kind, wildcard matching no action, bare '*' action, '*' mixed with named principals, wildcards in the bucket part of a resource, duplicate JSON keys, lower-case member names, leading whitespace, single-object Statement, Condition/NotAction/unknown members")
 	c.Assume("missing Effect/Principal/Action/Resource members count as 'not a valid policy' (the statement's list of invalid documents is read as examples)")
+	finishRule = "lane A: Resources.Match on many-wildcard patterns x long near-miss subjects under a 20 s watchdog per call; Resources.Match exhaustive over all (pattern, subject) up to length 4/5 over {a,b,*,?} + PRNG pairs over {a,b,/,*,?,.,é,𝄞}; Actions.FindMatch over every prefix pattern x action of the vocabulary; ValidatePolicyDocument over generated valid/invalid(28 classes x variants)/ambiguous documents; VerifyBucketPolicy vs a deny-overrides reference on documents of 1-6 statements in all JSON shapes x 20 targeted queries each. lane B: invalid puts over an existing policy (refused, bytes and decisions unchanged) and Get/Put/Delete/List requests of owner and stranger under generated policies. distinct = (glob pattern class, subject class, result) | (validity verdict, class, variant) | (statement count, decision kind, deciding statement shape) | (probe action, decision kind, owner/stranger) | (invalid class, variant, outcome)"
+	laneGlobCost(c)
 	laneGlobExhaustive(c)
 	laneGlobRandom(c)
 	laneComponents(c)
 	laneValidity(c)
 	laneEvaluator(c)
 	laneE2E(c)
-	return c.Finish("lane A: Resources.Match exhaustive over all (pattern, subject) up to length 4/5 over {a,b,*,?} + PRNG pairs over {a,b,/,*,?,.,é,𝄞}; Actions.FindMatch over every prefix pattern x action of the vocabulary; ValidatePolicyDocument over generated valid/invalid(28 classes x variants)/ambiguous documents; VerifyBucketPolicy vs a deny-overrides reference on documents of 1-6 statements in all JSON shapes x 20 targeted queries each. lane B: invalid puts over an existing policy (refused, bytes and decisions unchanged) and Get/Put/Delete/List requests of owner and stranger under generated policies. distinct = (glob pattern class, subject class, result) | (validity verdict, class, variant) | (statement count, decision kind, deciding statement shape) | (probe action, decision kind, owner/stranger) | (invalid class, variant, outcome)", 150)
+	return c.Finish(finishRule, 150)
 }
